@@ -230,6 +230,20 @@ Proof.
   rewrite (reachable_complete _ _ _ _ _ Hr e f He Hp) in H. discriminate.
 Qed.
 
+(* the search did not run out of fuel, and its result is exactly the set of
+   nodes reachable from the roots *)
+Theorem reach_exact : forall d t ex roots forbidden,
+  check_forbidden d t ex roots forbidden = true ->
+  exists s, reach d t ex roots = Some s /\
+    forall x, memb x s = true <-> exists e, In e roots /\ path (step d t ex) e x.
+Proof.
+  intros d t ex roots forbidden H. unfold check_forbidden in H.
+  destruct (reach d t ex roots) as [s |] eqn:Hr; [| discriminate].
+  exists s. split; [reflexivity |]. intros x. split.
+  - apply (reachable_sound _ _ _ _ _ Hr).
+  - intros [e [He Hp]]. exact (reachable_complete _ _ _ _ _ Hr e x He Hp).
+Qed.
+
 Lemma edge_nodes : forall g a b, edge g a b -> In b (nodes_of g).
 Proof.
   intros g a b [l [Hl Hb]]. unfold nodes_of. apply in_flat_map.
